@@ -31,12 +31,22 @@ SumRank(s) == IF s = <<>> THEN 0 ELSE KindRank[Head(s)] + SumRank(Tail(s))
 \*   nilled      every optional pointer, slice, map and `any` is nil
 \*   emptied     every pointer non-nil (pointing to a value filled the same way), every slice EMPTY WITH SPARE
 \*               CAPACITY (len 0 < cap), every map empty non-nil, every `any` holds an empty list
+\*   wide        like wellformed with THREE distinct elements in every slice and map near the root (a routine that
+\*               handles only the first - or first and last - element properly)
+\*   zeroed      like wellformed (one element per slice) but every scalar slot holds its zero value (false, 0, "");
+\*               combined with the falsy payloads false | zero (0, 0.0) | emptystr - the same one in every `any` slot -:
+\*               a routine that treats falsy as absent or fills in a constant ([] and {}: fill emptied)
 Combos == {<<"wellformed", "scalar">>, <<"wellformed", "slice">>, <<"wellformed", "map">>, <<"wellformed", "nested">>,
            <<"wellformed", "irnode">>, <<"wellformed", "exotic">>, <<"saturated", "nested">>, <<"sparse", "slice">>,
-           <<"nilled", "scalar">>, <<"emptied", "slice">>}
+           <<"nilled", "scalar">>, <<"emptied", "slice">>, <<"wide", "slice">>,
+           <<"zeroed", "false">>, <<"zeroed", "zero">>, <<"zeroed", "emptystr">>}
 
 \* chains of this slice, by depth bound (computed once, before the product with roots and combos)
-SliceChains(d) == {c \in Chains(d) : SumRank(c) % NSlices = Slice}
+\* slices are taken on the chain read as a decimal number (balanced: consecutive numbers fall in consecutive slices;
+\* with NSlices <= 60 every slice holds at least one chain of length <= 2, i.e. every root appears in every slice)
+RECURSIVE PosVal(_)
+PosVal(s) == IF s = <<>> THEN 0 ELSE PosVal(SubSeq(s, 1, Len(s) - 1)) * 10 + KindRank[s[Len(s)]]
+SliceChains(d) == {c \in Chains(d) : PosVal(c) % NSlices = Slice}
 \* Roots outside DeepRoots hold their types behind other nodes and hand them to Type.DeepCopy unseen: every kind
 \* directly below them, and a slice of the longer chains (the type root itself gets every chain)
 ChainsFor(r) == IF r \in DeepRoots THEN SliceChains(MaxDepth)
